@@ -258,18 +258,25 @@ def shrink(ctx, req, key, budget=400):
         if not cands:
             break
         cpath = os.path.join(ctx.work, 'shrink.req')
-        with open(cpath, 'w') as f:
-            f.write('\n'.join(cands) + '\n')
-        try:
-            triples = run_requests(ctx, cpath, 'shrink')
-        except Exception:
-            break
-        for r, i, m in triples:
-            steps += 1
-            res = C.compare_case(ctx.cfg, r, i, m)
-            if key(res) and len(r) < len(cur):
-                cur = r
-                improved = True
+        # candidates go to the two sides in batches, so that the time limit is honoured on large cases too
+        batch = 200 if len(cur) < 600 else 16
+        for b0 in range(0, len(cands), batch):
+            if time.time() - t0 >= limit:
+                break
+            with open(cpath, 'w') as f:
+                f.write('\n'.join(cands[b0:b0 + batch]) + '\n')
+            try:
+                triples = run_requests(ctx, cpath, 'shrink')
+            except Exception:
+                triples = []
+            for r, i, m in triples:
+                steps += 1
+                res = C.compare_case(ctx.cfg, r, i, m)
+                if key(res) and len(r) < len(cur):
+                    cur = r
+                    improved = True
+                    break
+            if improved:
                 break
     return cur
 
@@ -456,7 +463,8 @@ def main():
 
     kf = known_findings(a.prop)
     if spec_f:
-        req, res = spec_f[0]
+        # shrink the smallest of the failing requests
+        req, res = min(spec_f, key=lambda t: (t[0].split()[0] == 'extra', len(t[0])))
         small = req
         if req.split()[0] not in ('extra',):
             small = shrink(ctx, req, lambda x: bool(x['spec'] or x['impl']))
